@@ -246,6 +246,47 @@ func genInputs(kind string, seed int64, n int) []N {
 			"func f() { return 1, 2 }", "x := if true { 1 }", "x := switch 1 { case 1: 2 }", "x := for i := 0; i < 1; i++ {}", "'{'", "'{1 +}'", "'{break}'", "'{func() { break }}'"} {
 			add(s)
 		}
+	case "breaks":
+		// a line break (or a comment, or nothing at all) at every token gap of every construct, one and two
+		// gaps at a time: wherever the grammar does not accept the break the parser must say so, not crash
+		snippets := []string{"a [ 0 ]", "a [ 1 : 2 ]", "a [ : 2 ] [ 1 : ]", "a . b", "a . b ( 1 , 2 )", "f ( 1 , 2 )", "x := 1", "a , b := [ 1 , 2 ]",
+			"func ( a , b = 1 ) { return a }", "func g ( a ) { a }", "if a { b } else if c { d } else { e }", "switch a { case 1 , 2 : b default : c }",
+			"for i := 0 ; i < 1 ; i ++ { a }", "for k , v := range m { a }", "for x in m { a }", "for { break }", "a ? b : c", "a | b | c", "import x", "import x as y",
+			"from a import b as c , d", "from a import ( b , c )", "go f ( )", "defer f ( )", "c <- 1", "x := <- c", "! a", "- a", "a in b", "a not in b",
+			"{ \"a\" : 1 , \"b\" : 2 }", "{ 1 , 2 }", "[ 1 , 2 ]", "const c = 1", "var v = 1", "a += 1", "a ++", "a . b = 1", "a [ 0 ] = 1", "a [ 0 ] += 1",
+			"func f ( ) { return 1 }", "a && b || c", "a == b", "a ** b", "try ( func ( ) { a } , func ( e ) { b } )", "x := if a { 1 } else { 2 }", "x := switch a { case 1 : 2 }",
+			"( a )", "( a , b )", "a ( ) ( )", "a . b . c ( ) [ 0 ]", "func ( ) { } ( )", "[ ] . map ( func ( x ) { x } )"}
+		for _, sn := range snippets {
+			toks := strings.Split(sn, " ")
+			join := func(sep map[int]string) string {
+				var sb strings.Builder
+				for i, t := range toks {
+					if i > 0 {
+						if v, ok := sep[i]; ok {
+							sb.WriteString(v)
+						} else {
+							sb.WriteString(" ")
+						}
+					}
+					sb.WriteString(t)
+				}
+				return sb.String()
+			}
+			add(join(nil))
+			for i := 1; i < len(toks); i++ {
+				for _, v := range []string{"\n", "", " // c\n", " /* c */ ", "\r\n", ";"} {
+					add(join(map[int]string{i: v}))
+				}
+				for j := i + 1; j < len(toks) && j <= i+3; j++ {
+					add(join(map[int]string{i: "\n", j: "\n"}))
+				}
+			}
+			// the construct cut off after each token
+			for i := 1; i < len(toks); i++ {
+				add(strings.Join(toks[:i], " "))
+				add(strings.Join(toks[:i], " ") + "\n")
+			}
+		}
 	case "deep":
 		for _, d := range []int{10, 1000, 5000} {
 			add(strings.Repeat("(", d) + "1" + strings.Repeat(")", d))
